@@ -31,6 +31,14 @@ ConformLogs     == (l > 1 /\ Last.a # "Reset" /\ Last.err = "") => \A p \in Part
 ConformNet      == (l > 1 /\ Last.a # "Reset" /\ Last.err = "") => \A p \in Party : MatchNet(p, Last.st[p])
 ErrAgree        == (l > 1 /\ Last.a # "Reset") => ((Last.err = "") <=> (bad = "none"))
 
+\* C02: what a reload from disk yields after *every* step equals the model's Restored(p)
+MatchShadow(p, j) ==
+  LET r == Restored(p) IN
+  /\ r.Lidx = j.lidx /\ r.Lhtlc = j.lhtlc /\ r.Ridx = j.ridx /\ r.Rhtlc = j.rhtlc
+  /\ PChain(r.LC) = JChain(j.LC) /\ PChain(r.RC) = JChain(j.RC)
+  /\ PLog(r.L) = JLog(j.L) /\ PLog(r.R) = JLog(j.R)
+ConformShadow == (l > 1 /\ Last.a # "Reset" /\ Last.err = "") => \A p \in Party : MatchShadow(p, Last.sh[p])
+
 TInit == Init /\ l = 1
 
 Is(a) == l <= Len(Trace) /\ Trace[l].a = a /\ l' = l + 1
